@@ -58,6 +58,11 @@ CHECKS.update({
    text="All histories up to the depth bound over subscriber identifiers that are prefixes of one another, consumer names that are empty or end in digits, and counter presets 0/9/99 with a macro operation that advances the counter across a digit boundary; after every transition all unreleased references must be pairwise different and usage addressed to a reference must sit in the record opened by that create. Concurrent creates are explored in schedule mode (see evidence).",
    ref="6 C10", note=TB_E1),
 })
+CHECKS.update({
+ "C13": dict(engine=E2, technique="exhaustive enumeration of service lists x registered routes x token kinds against the real router, with a state-comparison oracle for 'no processing'",
+   text="For each of the 16 ordered lists of distinct service names the router is built by the real NewServer; every (method, path) reported by Engine.Routes() is probed with 11 kinds of missing/malformed/wrongly signed tokens (twice each) against a world holding a live session: the answer must be 401 and balances, reservations, rating modes, records, database reads/writes, Diameter dials and notifications must be unchanged; a control probe with a valid NRF-signed token must not be 401.",
+   ref="6 C13", note=TB_E1),
+})
 NA_REASON = "check under construction (see DESIGN.md section 6)"
 
 m = {"version": 1, "setup_cmd": "./setup.sh",
